@@ -6,25 +6,25 @@ import (
 
 // Agg is what a worker accumulates over its runs (one JSON line at the end).
 type Agg struct {
-	World       string           `json:"world"`
-	Runs        int              `json:"runs"`
-	NonTrivial  int              `json:"nontrivial"`
-	Failing     int              `json:"failing"`
-	KnownRuns   int              `json:"known_runs"`
-	Known       map[string]int   `json:"known"`
-	Steps       int64            `json:"steps"`
-	SimNanos    int64            `json:"sim_ns"`
-	WallMicros  int64            `json:"wall_us"`
-	Shapes      map[string]int   `json:"shapes"`     // shape -> runs (non-trivial only)
-	KindHashes  map[string]bool  `json:"kind_hashes"`
+	World       string            `json:"world"`
+	Runs        int               `json:"runs"`
+	NonTrivial  int               `json:"nontrivial"`
+	Failing     int               `json:"failing"`
+	KnownRuns   int               `json:"known_runs"`
+	Known       map[string]int    `json:"known"`
+	Steps       int64             `json:"steps"`
+	SimNanos    int64             `json:"sim_ns"`
+	WallMicros  int64             `json:"wall_us"`
+	Shapes      map[string]int    `json:"shapes"` // shape -> runs (non-trivial only)
+	KindHashes  map[string]bool   `json:"kind_hashes"`
 	TraceHashes map[uint64]string `json:"trace_hashes,omitempty"` // seed -> hash (determinism mode)
-	Probes      map[string]int   `json:"probes"`
-	Faults      map[string]int   `json:"faults"`
-	Events      map[string]int   `json:"events"`
-	Net         map[string]int64 `json:"net"`
+	Probes      map[string]int    `json:"probes"`
+	Faults      map[string]int    `json:"faults"`
+	Events      map[string]int    `json:"events"`
+	Net         map[string]int64  `json:"net"`
 	Samples     []json.RawMessage `json:"samples,omitempty"`
-	FirstSeed   uint64           `json:"first_seed"`
-	LastSeed    uint64           `json:"last_seed"`
+	FirstSeed   uint64            `json:"first_seed"`
+	LastSeed    uint64            `json:"last_seed"`
 }
 
 func NewAgg(world string) *Agg {
